@@ -22,7 +22,7 @@ func init() {
 
 func ruleS17_1(c *Ctx, id string) {
 	V, P, R := c.V, c.P, c.R
-	R.Rule(id, "validate, lock, one transaction, commit(true), unlock - per SimpleNFS handler that reaches the journal", 20)
+	R.Rule(id, "validate, lock, one transaction, commit(true), unlock - per SimpleNFS handler that reaches the journal", 45)
 	valid := c.fn(id, "simple.validInum")
 	fh2ino := c.fn(id, "simple.fh2ino")
 	if valid == nil || fh2ino == nil {
